@@ -342,6 +342,14 @@ class WOwnership(Monitor):
                         and feature in res.heads1 and w.is_ancestor(
                             res.heads1[feature], res.heads1[info['dst']]):
                     merged = True
+            if not merged:
+                # a queue merge (possibly partial: the source moved after
+                # the PR was queued) removes the PR's q/w/ and w/ branches
+                merged = any(
+                    a == 'berte' and new == Z40 and
+                    ref.startswith(H + 'q/w/') and
+                    ref[len(H):].split('/', 4)[4] == feature
+                    for tx in res.txs for a, old, new, ref in tx)
             if merged:
                 hist.count('w_deleted_merged')
                 continue
